@@ -127,7 +127,13 @@ def gen_tokens(rng, cfg, size, allow_undef=True):
             else:
                 tok = {"t": "ref", "to": rng.choice(ref_targets)}
                 v = rng.random()
-                if v < 0.3 and fam in ("x64", "ia32", "arm64"):
+                if v < 0.12 and fam == "x64":
+                    tok["imm"] = rng.randint(1, 100)
+                    tok["addend"] = rng.choice([0, 4, 8])
+                elif v < 0.12 and fam == "arm64":
+                    tok["lit"] = True
+                    tok["addend"] = rng.choice([0, 8, 16])
+                elif v < 0.3 and fam in ("x64", "ia32", "arm64"):
                     tok["addend"] = rng.choice([4, 8, 16])
                 elif v < 0.45 and fam in ("x64", "arm64") and not pe:
                     tok["got"] = True
